@@ -122,6 +122,9 @@ type World struct {
 	msgSeq      int
 	Log         []*Message // every publish / direct send ever made (guarded by mu)
 
+	peerHolds  map[string]chan struct{}
+	peerParked map[string]*int64
+
 	pending int64 // items queued to a subscriber/emitter pump and not yet handed over
 
 	closed bool
